@@ -6,10 +6,10 @@ RACE = {"C08", "C09", "C13", "C20"}
 # id -> (level category, technique, level text, level note, design ref)
 CHECKS = {
  "C01": ("exploration", "reference-model monitor: independent writer -> real parser -> field-by-field comparison with the abstract record",
-         "Files are laid out from abstract records by an independent GenBank writer (release-notes columns, randomised legal layout) and pushed through Parse / ParseMulti / ParseFlat / Read* (temp files, gzip); every field the property names is compared with the abstract record; multi-record files also against each record parsed alone. 1,500 files per quick run, 40,000 (incl. 10^5-base sequences) per thorough run.",
+         "Files are laid out from abstract records by an independent GenBank writer (release-notes columns, randomised legal layout) and pushed through Parse / ParseMulti / ParseFlat / Read* (temp files, gzip); every field the property names is compared with the abstract record; multi-record files also against each record parsed alone. 20,000 files per quick run, 500,000 (incl. 10^5-base sequences) per thorough run; results of earlier calls are re-inspected after later calls.",
          "trusts the harness writer; it is cross-checked on every file by the harness's own column-based reader (gbread(gbwrite(R)) == R), a failed self-check is inconclusive, never a violation", "5 C01"),
  "C02": ("exploration", "reference-model monitor with a complete small space; strict INSDC parser over written locations",
-         "Every operator shape with <= 3 operators over a 6-base parent with all 27 leaves (shapes of <= 3 leaves complete, larger ones sampled) and 20,000 (quick) / 2,000,000 (thorough) random expressions are evaluated through the text parser, through assembled structures in two normal forms, and written back and re-read by a strict INSDC parser; writing must not alter the structure.",
+         "Every operator shape with <= 3 operators over a 6-base parent with all 27 leaves (shapes of <= 3 leaves complete, larger ones sampled) and 200,000 (quick) / 4,000,000 (thorough) random expressions are evaluated through the text parser, through assembled structures in two normal forms, and written back and re-read by a strict INSDC parser; writing must not alter the structure.",
          "oracle: own INSDC printer/parser/evaluator; hook genbank.VerifParseLocation (verif tag) as accelerator, a sample of every run goes through genbank.Parse; known finding K2 (a..b>) matched by signature only", "5 C02"),
  "C03": ("exploration", "round-trip monitor + independent column-based reader + byte-level determinism over repeated builds",
          "Records from the parser image and assembled structures are built 20 times (byte comparison, map-rich records), parsed back by poly and read by an independent column-based reader; earlier outputs are re-checked after later builds; a sample goes through Write/Read.",
@@ -21,13 +21,13 @@ CHECKS = {
          "Value compared with 'v1_'+tag+'_'+hex(BLAKE3(canonical form)) for complete ACGT and protein-alphabet spaces; hash partition compared with the brute-force orbit partition in one process; every invalid single byte per type, unknown types and double-stranded proteins must be rejected.",
          "BLAKE3 collision resistance outside the explored set; documented alphabets are the specification of 'accepted'", "5 C04/C05"),
  "C06": ("exploration", "reference-model monitor, complete for the table clause",
-         "All 25 tables x 64 codons x 8 casings and the start/stop lists are compared with an independently transcribed NCBI code (standard code + differences); random strings are split at every codon boundary.",
+         "All 25 tables x 64 codons x 8 casings and the start/stop lists are compared with an independently transcribed NCBI code (standard code + differences); random strings are split at every codon boundary; strings returned earlier are re-inspected after later calls.",
          "trusts the harness transcription of the NCBI genetic codes (agrees with the tree on all 1600 entries, so a one-letter slip on either side is a disagreement)", "5 C06"),
  "C07": ("exploration", "reference-model monitor + Hoeffding-bounded frequency test",
          "Optimize on all 25 default tables and on tables re-weighted with forced 0 / exactly-10% / just-above weights: length, back-translation by the table's own assignment, eligibility of every emitted codon in exact integers, errors (not crashes) for unencodable residues, generator outputs, in-place re-weighting histories, and codon frequencies over 10^5 (quick) / 10^6 (thorough) draws per amino acid against a Hoeffding band.",
          "proportionality is statistical: false-alarm probability < 1e-9 per run, resolution = band half-width reported in evidence", "5 C07"),
  "C08": ("exploration", "history monitor against a value-semantics model (invariant at every step boundary) + race detector",
-         "Every operation sequence up to length 4 on two table ids (complete DFS) and random histories of length 5..8 on three ids; after every step every live table is read back and compared with the value model; a mismatch is attributed to known finding K1 only if it equals the aliasing defect model. Counting clause on deep copies; 16 goroutines re-weight tables of distinct ids under -race.",
+         "Every operation sequence up to length 4 on two table ids of different genetic codes (complete DFS; add also across codes) and random histories of length 5..8 on three ids; after every step every live table is read back and compared with the value model; a mismatch is attributed to known finding K1 only if it equals the aliasing defect model. Counting clause on deep copies; 16 goroutines re-weight tables of distinct ids under -race.",
          "the receiver of OptimizeTable is not inspected again (documented in-place mutation); compromise values are C18's subject", "5 C08"),
  "C09": ("exploration", "result-set monitor against rings known by construction and a sequential enumeration, under the race detector with GOMAXPROCS and scheduler perturbation; bounded-progress (allocation budget, all-blocked snapshot, resident-memory cap) monitor for termination",
          "Designed pools (1..6 junctions, 1..3 alternatives per slot, flipped fragments, shuffled input, dead-end decoys incl. ones entering the ring) are ligated by CircularLigate and, rendered as linear/circular BsaI/BbsI/BtgZI carrier parts, by GoldenGate at GOMAXPROCS 1, 2, 16 with >= 20 calls each under -race; the returned set of molecules (own canonical form) must equal the designed set on every call, no molecule twice; arrival orders observed are counted. Termination pools (lollipops, shared junctions, random overhang graphs) must return within an allocation budget with every simple ring and only closed walks.",
@@ -45,25 +45,25 @@ CHECKS = {
          "Documents by the harness's own Uniprot XML writer, plain and gzip; truncation at every byte offset of small documents (complete), gzip-stream truncation, tag/bracket corruption and byte flips; sequential (documented) and concurrent consumers with channel capacities 0..100 and dribbling readers: entries before the damage arrive in order, at least one and a bounded number of errors, both channels closed, no persistent wait-for cycle, no race report.",
          "bounded progress instead of termination: event-count bound and wait-for-cycle detection by runtime.Stack sampling; wall-clock watchdog only yields inconclusive; well-formedness of damaged text decided by the harness's own encoding/xml token loop", "5 C20"),
  "C11": ("exploration", "reference-model monitor with complete small spaces",
-         "Reverse complement, complement, reverse, palindrome test and IUPAC expansion are compared with base-set semantics on every IUPAC string to length 4 (quick) / 5 (thorough), mixed case to length 2/3, all split points, and random strings to 10^4.",
+         "Reverse complement, complement, reverse, palindrome test and IUPAC expansion are compared with base-set semantics on every IUPAC string to length 4 (quick) / 5 (thorough), mixed case to length 2/3, all split points, random strings to 10^4, and sparse-ambiguity strings of 65..600 bases; strings returned earlier are re-inspected after later calls.",
          "oracle derives complements and expansions from NC-IUB base sets", "5 C11"),
  "C12": ("exploration", "reference-model monitor with complete small spaces",
-         "RotateSequence compared with brute-force least rotation on all strings over alphabets of size 2/3/4 to length 14/9/7 (quick) or 20/13/11 (thorough) and with an independent two-pointer scan on structured strings to 10^5 / 10^6 characters, each with a random rotation.",
+         "RotateSequence compared with brute-force least rotation on all strings over alphabets of size 2/3/4 to length 17/11/9 (quick) or 21/13/11 (thorough) and with an independent two-pointer scan on structured strings to 10^5 / 10^6 characters, each with a random rotation.",
          "two independent oracles cross-checked on every short string", "5 C12"),
  "C14": ("exploration", "round-trip monitor + independent GFF3 writer and reader",
-         "Every sequence length 1..300 (all residues modulo 70) and random lengths to 5000: gff.Build -> gff.Parse, gff.Build -> own reader, own writer (shuffled attributes, FASTA width 1..200) -> gff.Parse; parsed features must report bases start..end of the file's sequence.",
+         "Every sequence length 1..300 (all residues modulo 70, several times) and random lengths to 5000, attribute values with blanks at their ends: gff.Build -> gff.Parse, gff.Build -> own reader, own writer (shuffled attributes, FASTA width 1..200) -> gff.Parse; parsed features must report bases start..end of the file's sequence.",
          "oracle: the input record and the harness's own slicing", "5 C14"),
  "C16": ("exploration", "reference-model monitor over generated listings + the distributed sample",
-         "Generated format-31 listings (blank- or tab-indented supplier table, 0..300 records, empty fields) and the distributed sample read by the harness's own reader are compared field by field with rebase.Parse/Read; Export must unmarshal back to the same map.",
+         "Generated format-31 listings (blank- or tab-indented supplier table, 0..300 records, empty fields) and the distributed sample read by the harness's own reader are compared field by field with rebase.Parse/Read; Export must unmarshal back to the same map and bytes returned by earlier Export calls are re-inspected after later calls.",
          "nil/empty/[\"\"] are equal for empty list fields", "5 C16"),
  "C17": ("exploration", "definition-based monitor over random and adversarial calls",
          "Every De Bruijn order 1..9 (quick) / 1..11 (thorough) is checked window by window; barcode lists from random and adversarially ordered ban / filter lists are checked for length, substring-ness, n-mer disjointness, bans, reverse complements and filters.",
          "reference De Bruijn sequence for the substring clause is poly's own output validated in the same run", "5 C17"),
  "C18": ("exploration", "reference-model monitor with exact integer/rational arithmetic",
-         "25 codes x table pairs re-weighted from constructed coding sequences x a cut-off grid containing 0, 1, their neighbours and realised shares +/- 1.5/10000: sums, means (+/-1 on integer-scaled shares), zeroing below the cut-off, symmetry, range errors, unchanged genetic code and inputs, and Optimize on the compromise table.",
+         "25 codes x table pairs re-weighted from constructed coding sequences x a cut-off grid containing 0, 1, their neighbours and realised shares +/- 1.5/10000: sums, means (+/-1 on integer-scaled shares), zeroing below the cut-off, symmetry, range errors, unchanged genetic code and inputs, and Optimize on the compromise table; each pair is then re-weighted in place and combined again.",
          "tolerances as stated by the property", "5 C18"),
  "C19": ("exploration", "reference-model monitor, complete for short oligos",
-         "SantaLucia Tm/dH/dS compared (rel. 1e-9) with an independent implementation for every oligo of length 2..6 (quick) / 2..8 (thorough) on a concentration grid whose lines double as monotonicity chains; MeltingTemp and MarmurDoty compared with their definitions.",
+         "SantaLucia Tm/dH/dS compared (rel. 1e-9) with an independent implementation for every oligo of length 2..7 (quick) / 2..8 (thorough) on a concentration grid whose lines double as monotonicity chains; MeltingTemp and MarmurDoty compared with their definitions.",
          "nearest-neighbour parameters transcribed by pair class; monotonicity asserted only inside the duplex-forming regime", "5 C19"),
 }
 PENDING = {}
